@@ -1473,3 +1473,43 @@ package runtime
 // A closure keeps its code, and code objects are immutable once built.
 //@ stable Closure.Code written-by NewClosure
 //@ stable Closure.Upvalues written-by NewClosure
+
+// C11: the result of an xpcall message handler replaces the error value - its
+// FIRST result: the continuation that collects what the handler returns keeps
+// the first value pushed to it and ignores the rest, and turns it into the
+// (handled) error that is propagated.
+//@ func (*messageHandlerCont).Push
+//@   prop C11
+//@   arith int
+//@   requires c != nil
+//@   modifies c.err, c.done
+//@   ensures c.done
+//@   ensures old(c.done) ==> c.err == old(c.err)
+//@   ensures !old(c.done) ==> c.err == v
+
+//@ func (*messageHandlerCont).PushEtc
+//@   prop C11
+//@   arith int
+//@   requires c != nil
+//@   modifies c.err, c.done
+//@   ensures old(c.done) ==> c.err == old(c.err) && c.done
+//@   ensures !old(c.done) && len(etc) == 0 ==> c.err == old(c.err) && !c.done
+//@   ensures !old(c.done) && len(etc) > 0 ==> c.err == etc[0] && c.done
+
+//@ func (*messageHandlerCont).RunInThread
+//@   prop C11
+//@   arith int
+//@   requires c != nil
+//@   modifies nothing
+//@   ensures result0 == nil && result1 != nil
+
+// C03 (stable traversal): removing a key from the hash part leaves a tombstone -
+// the slot keeps its key and its chain link, only the value is cleared - so that
+// a traversal standing on the removed key (t[k] = nil inside pairs) still finds
+// its position and the chains of the other keys are intact.  The slot is reached
+// through an interior pointer returned by findSlot, so the frame is decided on
+// the code's stores (effect obligation), not by the SMT side.
+//@ func removeKey
+//@   prop C03
+//@   effectsonly
+//@   effects writes-only hashTableSlot.value
